@@ -40,6 +40,8 @@ def check(ctx):
     ctx.rule("C11-R3", "no kernel writes through the cell argument; the callers pass np.asarray(result.unitcell_vectors) (a derived array)")
     ctx.rule("C11-R4", "sorted_bonds defaults to the bonds sorted by the first atom's index")
     ctx.rule("C11-R5", "molecules are the connected components of the undirected bond graph")
+    from .c05 import flag_identity
+    flag_identity(ctx, "C11-R1", [TRAJ], name_filter=lambda q: q in ("Trajectory.image_molecules", "Trajectory.make_molecules_whole"), floor=2)
     r5_molecules(ctx)
 
     # ---------------- R1, R3(py), R4 ----------------------------------------------------------------
